@@ -349,3 +349,156 @@ func TestGovcReplay(t *testing.T) {
 		},
 	}}, harnesses...)
 }
+
+func init() {
+	harnesses = append([]*harness{{
+		name:      "HTTP/2 upstream host rewrite replay (real client stream connection, request with the authority variable set)",
+		modelFree: true,
+		match: func(o *Obligation) bool {
+			return strings.HasSuffix(o.Func, "stream/http2.(*clientStream).AppendHeaders") && strings.Contains(o.Name, "rewrittenAuthority")
+		},
+		run: func(eng *Engine, o *Obligation) *ReplayOutcome {
+			src := `package http2
+
+import (
+	"context"
+	"fmt"
+	"io"
+	"net"
+	"testing"
+
+	"mosn.io/mosn/pkg/network"
+	"mosn.io/mosn/pkg/protocol"
+	"mosn.io/mosn/pkg/types"
+	"mosn.io/pkg/variable"
+)
+
+// The failed obligation says: the HTTP/2 client stream builds the request without the route's host rewrite. Replay on a
+// real client stream connection: a request (not an HTTP/2 request object, as one proxied from HTTP/1 or an xprotocol) whose
+// context carries the rewrite in the authority variable - what finalizeRequestHeaders does for host_rewrite - is handed to
+// AppendHeaders; the request built for the upstream must carry it as its authority.
+func TestGovcReplay(t *testing.T) {
+	l, err := net.Listen("tcp", "127.0.0.1:0")
+	if err != nil {
+		fmt.Println("REPLAY-INCONCLUSIVE listen:", err)
+		return
+	}
+	defer l.Close()
+	go func() {
+		if c, err := l.Accept(); err == nil {
+			io.Copy(io.Discard, c)
+		}
+	}()
+	rawc, err := net.Dial("tcp", l.Addr().String())
+	if err != nil {
+		fmt.Println("REPLAY-INCONCLUSIVE dial:", err)
+		return
+	}
+	defer rawc.Close()
+	connection := network.NewServerConnection(context.Background(), rawc, nil)
+	ctx := variable.NewVariableContext(context.Background())
+	sc := newClientStreamConnection(ctx, connection, nil).(*clientStreamConnection)
+	variable.SetString(ctx, types.VarHost, "original.example")
+	variable.SetString(ctx, types.VarIstioHeaderHost, "rewritten.example")
+	variable.SetString(ctx, types.VarPath, "/x")
+	cs := sc.NewStream(ctx, nil).(*clientStream)
+	if err := cs.AppendHeaders(ctx, protocol.CommonHeader(map[string]string{"k": "v"}), false); err != nil {
+		fmt.Println("REPLAY-INCONCLUSIVE AppendHeaders:", err)
+		return
+	}
+	if cs.h2s == nil || cs.h2s.Request == nil {
+		fmt.Println("REPLAY-INCONCLUSIVE no upstream request was built")
+		return
+	}
+	if got := cs.h2s.Request.Host; got != "rewritten.example" {
+		fmt.Printf("REPLAY-CONFIRMED host_rewrite rewritten.example is configured (authority variable set) but the request built for the HTTP/2 upstream carries the authority %q (the HTTP/1 client stream sends the rewritten host)\n", got)
+		return
+	}
+	fmt.Println("REPLAY-NOT-REPRODUCED the upstream request carries the rewritten authority")
+}
+`
+			out, _ := runOverlayTest("pkg/stream/http2", src, "^TestGovcReplay$")
+			return outcomeFromOutput(src, out)
+		},
+	}}, harnesses...)
+}
+
+func init() {
+	harnesses = append([]*harness{{
+		name:      "HTTP/2 client SETTINGS_MAX_FRAME_SIZE replay (real client connection: SETTINGS with MAX_FRAME_SIZE = 0, then request headers)",
+		modelFree: true,
+		match: func(o *Obligation) bool {
+			return strings.HasSuffix(o.Func, "http2.(*MClientConn).processSettings$1") && strings.Contains(o.Name, "frameSizeLegal")
+		},
+		run: func(eng *Engine, o *Obligation) *ReplayOutcome {
+			src := `package http2
+
+import (
+	"context"
+	"fmt"
+	"io"
+	"net"
+	"net/http"
+	"net/url"
+	"testing"
+	"time"
+
+	mh2 "mosn.io/mosn/pkg/module/http2"
+	"mosn.io/mosn/pkg/network"
+	"mosn.io/pkg/buffer"
+)
+
+// The failed obligation says: a SETTINGS_MAX_FRAME_SIZE outside the legal range is stored. Replay on a real client
+// connection: the upstream's SETTINGS frame announces MAX_FRAME_SIZE = 0 (a PROTOCOL_ERROR by RFC 7540 6.5.2), then a
+// request's headers are written. The header writer cuts the block into chunks of the announced size.
+func TestGovcReplay(t *testing.T) {
+	l, err := net.Listen("tcp", "127.0.0.1:0")
+	if err != nil {
+		fmt.Println("REPLAY-INCONCLUSIVE listen:", err)
+		return
+	}
+	defer l.Close()
+	go func() {
+		if c, err := l.Accept(); err == nil {
+			io.Copy(io.Discard, c)
+		}
+	}()
+	rawc, err := net.Dial("tcp", l.Addr().String())
+	if err != nil {
+		fmt.Println("REPLAY-INCONCLUSIVE dial:", err)
+		return
+	}
+	defer rawc.Close()
+	connection := network.NewServerConnection(context.Background(), rawc, nil)
+	cc := mh2.NewClientConn(connection)
+	raw := []byte{0x00, 0x00, 0x06, byte(mh2.FrameSettings), 0x00, 0x00, 0x00, 0x00, 0x00,
+		0x00, byte(mh2.SettingMaxFrameSize), 0x00, 0x00, 0x00, 0x00}
+	f, _, err := cc.Framer.ReadFrame(context.Background(), buffer.NewIoBufferBytes(raw), 0)
+	if err != nil {
+		fmt.Println("REPLAY-NOT-REPRODUCED the frame reader refuses the SETTINGS frame:", err)
+		return
+	}
+	_, _, _, _, _, err = cc.HandleFrame(context.Background(), f)
+	if err != nil {
+		fmt.Println("REPLAY-NOT-REPRODUCED the client connection refuses MAX_FRAME_SIZE = 0:", err)
+		return
+	}
+	done := make(chan error, 1)
+	go func() {
+		req := &http.Request{Method: "GET", Host: "h", URL: &url.URL{Scheme: "http", Host: "h", Path: "/"}, Header: http.Header{}}
+		_, err := cc.WriteHeaders(context.Background(), req, "", true)
+		done <- err
+	}()
+	select {
+	case err := <-done:
+		fmt.Println("REPLAY-NOT-REPRODUCED WriteHeaders returned:", err)
+	case <-time.After(2 * time.Second):
+		fmt.Println("REPLAY-CONFIRMED an upstream's SETTINGS_MAX_FRAME_SIZE = 0 is accepted and the next request's WriteHeaders does not return within 2 s: the header writer emits empty frames for ever, holding the connection's locks")
+	}
+}
+`
+			out, _ := runOverlayTest("pkg/stream/http2", src, "^TestGovcReplay$")
+			return outcomeFromOutput(src, out)
+		},
+	}}, harnesses...)
+}
